@@ -91,7 +91,7 @@ add('c07-abs-uses-std', S, "    elif mask_amp_mode == 'abs':\n        sd = 1", "
 add('c07-mean-before-remove', S, "    return imfs.mean(axis=1)[:, np.newaxis], np.any(continue_flags)",
     "    return imfs.sum(axis=1)[:, np.newaxis], np.any(continue_flags)", 'breaking', ['C07'], 'C07.R1')
 add('c07-flag-all', S, "    return imfs.mean(axis=1)[:, np.newaxis], np.any(continue_flags)",
-    "    return imfs.mean(axis=1)[:, np.newaxis], np.all(continue_flags)", 'breaking', ['C07'], 'C07.R1')
+    "    return imfs.mean(axis=1)[:, np.newaxis], np.all(continue_flags)", 'benign', ['C07'])   # which symmetric reduction ends a masked sift is not part of C07
 add('c07-mask-time-offset', S, "    t = np.repeat(np.arange(X.shape[0])[:, np.newaxis], nphases, axis=1)",
     "    t = np.repeat(np.arange(1, X.shape[0]+1)[:, np.newaxis], nphases, axis=1)", 'breaking', ['C07'], 'C07.R1')
 add('c07-wrong-layer-freq', S, "next_imf, continue_sift = get_next_imf_mask(proto_imf, mask_freqs[imf_layer], amp,",
@@ -107,7 +107,8 @@ add('c15-lstrip-minus', CY, "        val = float(comp.lstrip('!=<>'))", "       
 add('c15-any-conditions', CY, "            return np.all(out, axis=1)", "            return np.any(out, axis=1)", 'breaking', ['C15'], 'C15.R2')
 add('c15-args-swapped', CY, "            out[:, idx] = func(self.metrics[name], val)", "            out[:, idx] = func(val, self.metrics[name])",
     'breaking', ['C15'], 'C15.R2')
-add('c15-chain-gap-ge1', CY, "        elif dchain_inds[ii] > 1:", "        elif dchain_inds[ii] >= 1:", 'breaking', ['C15'], 'C15.R3')
+add('c15-chain-gap-ge1', CY, "        elif dchain_inds[ii] > 1:", "        elif dchain_inds[ii] >= 1:", 'benign', ['C15'])   # equivalent: the gap == 1 case is taken by the branch before
+add('c15-chain-gap-ge3', CY, "        elif dchain_inds[ii] > 1:", "        elif dchain_inds[ii] > 2:", 'breaking', ['C15'], 'C15.R3')
 add('c15-chain-first-zero', CY, "    dchain_inds = np.r_[1, np.diff(chain_inds)]", "    dchain_inds = np.r_[2, np.diff(chain_inds)]", 'breaking', ['C15'], 'C15.R3')
 add('c15-subset-zero-fill', CY, "        if valids[ii] == 0:\n            subset_vect[ii] = -1", "        if valids[ii] == 0:\n            subset_vect[ii] = 0",
     'breaking', ['C15'], 'C15.R3')
